@@ -4,6 +4,7 @@
 //  O2 recorder / interpreter / disassembler / assembler agree on defined-ness and on the need for a second word
 //  O3 executing the word fetches exactly 1 + expanded program words at pc, and (for forms that do not transfer
 //     control) leaves pc = A + 1 + expanded; a following instruction is fetched from there, never from A+1
+//  O5 the disassembler's answer for (word, second word) does not depend on what it was asked before
 //  O4 flipping a bit the table text declares Unused<> changes neither the printed text nor the execution, and the
 //     set of bits that influence neither entry nor operands (recorder) is exactly the declared set
 #include <set>
@@ -184,6 +185,16 @@ vf::Result sub_O4_exec(uint16_t w, uint16_t x, uint32_t pc, uint64_t seed, int b
     icase::IResult r1 = sut().exec(c);
     c.opcode = w2;
     icase::IResult r2 = sut().exec(c);
+    // program and data space share one array: an instruction whose data operand happens to be its own first word (pc >= 0x20000 and
+    // a pointer at pc - 0x20000) reads the flipped bit as *data*; that says nothing about decoding
+    {
+        size_t idx = 0, nfetch = 1 + (i.expanded ? 1 : 0);
+        for (auto& a : r1.log)
+            if (idx++ >= nfetch && !a.write && (a.addr == (pc & 0x3FFFF) || a.addr == ((pc + 1) & 0x3FFFF))) {
+                vf::klass("O4: instruction reads its own words as data (skipped)");
+                return vf::Result::pass();
+            }
+    }
     if (r1.outcome != r2.outcome || (r1.outcome == 0 && (!(r1.after == r2.after) || r1.writes != r2.writes)))
         return vf::Result::fail("C02:O4:exec:" + i.name, "unused bit " + std::to_string(bit) + " of " + vf::hex(w) + " (" + i.form + ") changes execution: " +
                                                              flat::diff(r1.after, r2.after));
@@ -216,6 +227,35 @@ vf::Result sub_O4_decl(uint16_t w) {
     return vf::Result::pass();
 }
 
+// O5: what a consumer says about (first word, second word) is a function of those two words: the same query, asked after a
+// different second word of the same opcode and again after some other opcode, gives the same text / need for a second word
+vf::Result sub_O5(uint16_t w, uint16_t x) {
+    // (every query sequence starts by asking about another opcode, so that the check itself is a pure function of (w, x))
+    const uint16_t other = (uint16_t)(w ^ 0x5A5A), x1 = (uint16_t)(x ^ 0x8421);
+    auto flush = [&] {
+        (void)Teakra::Disassembler::GetTokenList(other, x1);
+        (void)Teakra::Disassembler::Do(other, x1);
+        (void)Teakra::Disassembler::NeedExpansion(other);
+    };
+    flush();
+    (void)Teakra::Disassembler::GetTokenList(w, x1);
+    auto after_same = Teakra::Disassembler::GetTokenList(w, x);
+    bool need_same = Teakra::Disassembler::NeedExpansion(w);
+    flush();
+    auto after_other = Teakra::Disassembler::GetTokenList(w, x);
+    bool need_other = Teakra::Disassembler::NeedExpansion(w);
+    flush();
+    (void)Teakra::Disassembler::Do(w, x1);
+    std::string d2 = Teakra::Disassembler::Do(w, x);
+    flush();
+    std::string d3 = Teakra::Disassembler::Do(w, x);
+    if (after_same != after_other || d2 != d3 || need_same != need_other)
+        return vf::Result::fail("C02:O5:history-dependent", "the disassembler's answer for word " + vf::hex(w) + " with second word " + vf::hex(x) +
+                                                                " depends on what it was asked before: '" + d2 + "' right after second word " + vf::hex(x1) +
+                                                                ", '" + d3 + "' after another opcode");
+    return vf::Result::pass();
+}
+
 vf::Result run_body(const std::string& body) {
     auto t = vf::split_ws(vf::lines(body).empty() ? "" : vf::lines(body)[0]);
     if (t.size() < 6)
@@ -232,6 +272,8 @@ vf::Result run_body(const std::string& body) {
         return sub_O4_exec(w, x, pc, seed, bit);
     if (t[0] == "O4d")
         return sub_O4_decl(w);
+    if (t[0] == "O5")
+        return sub_O5(w, x);
     return vf::Result::pass();
 }
 
@@ -278,6 +320,7 @@ int main(int argc, char** argv) {
             uint64_t seed = k == 0 ? 0 : s.next() | 1;
             c.current = [&] { return body_of("O3", w, x, pc, seed, 0); };
             vf::enum_result(prop, sub_O3(w, x, pc, seed), [&] { return body_of("O3", w, x, pc, seed, 0); }, [&] { return sub_O3(w, x, pc, seed); });
+            vf::enum_result(prop, sub_O5(w, x), [&] { return body_of("O5", w, x, 0, 0, 0); }, [&] { return sub_O5(w, x); });
             ++c.evaluations;
         }
         // O4: every declared-unused bit x n_states states
